@@ -46,10 +46,14 @@ def run_impl(ctx, cases, nproc=None):
     def one(sh_):
         p = subprocess.run([vf.PY, IMPL, ctx.tmp], input='\n'.join(json.dumps(c) for c in sh_) + '\n',
                            capture_output=True, text=True, env=vf.IMPL_ENV, timeout=3000)
-        lines = [l for l in p.stdout.split('\n') if l.startswith('{')]
+        lines = [json.loads(l) for l in p.stdout.split('\n') if l.startswith('{')]
+        hist = [l for l in lines if 'history' in l]
+        lines = [l for l in lines if 'history' not in l]
         if p.returncode != 0 or len(lines) != len(sh_):
             raise RuntimeError('c08_impl failed (rc=%s, %d/%d lines): %s' % (p.returncode, len(lines), len(sh_), _clean(p.stderr)[-1500:]))
-        return [json.loads(l) for l in lines]
+        for h in hist:
+            HISTORY.append(h)
+        return lines
     with ThreadPoolExecutor(nproc) as ex:
         outs = list(ex.map(one, shards))
     res = [None] * len(cases)
@@ -292,6 +296,21 @@ def gen_tails(rng, cat, R, M):
     return cases
 
 
+def gen_last_bytes(rng, cat, R, M):
+    """a header-only (24-byte) and a 25-byte message as the very last bytes of the file, at odd and even file sizes,
+    small files and files ending just after / before block and overlap boundaries"""
+    cases = []
+    for s_ in (24, 25):
+        for total in (s_, s_ + 1, 100, 101, M, M + 1, R - 1, R, R + 1, R + 24, R + 25, R + M - 1, R + M, R + M + 1, 2 * R, 2 * R + 1):
+            if total < s_:
+                continue
+            items = [(total - s_, sized_msg(s_, mtype=13000 + s_))]
+            if total > 300:
+                items.append((7, cat_msg(rng, cat, maxpay=M - 24)))
+            cases.append({'kind': 'tail:last-bytes', 'recipe': layout(items, total, ('z', 0) if total % 3 else ('z', 0x2E))})
+    return cases
+
+
 def gen_tiny(rng):
     cases = []
     for n in range(0, 30):
@@ -457,6 +476,7 @@ def gen_periodic(rng, cat, R, M, quick):
 
 REGISTERED = []
 SUPPORTING = True
+HISTORY = []      # per harness process: problems found by the in-process history checks
 
 
 def undecodable_payloads(default, maxpay):
@@ -585,7 +605,7 @@ def gen_small_exhaustive(rng, cat, quick):
         for ms in msizes:
             step = 1
             for off in range(0, fs - ms + 1, step):
-                if quick and (off * 7 + fs + ms) % 3:
+                if quick and (off * 7 + fs + ms) % 5:
                     continue
                 if ms == 40 and small_timed:
                     c = small_timed[(off + fs) % len(small_timed)]
@@ -596,20 +616,21 @@ def gen_small_exhaustive(rng, cat, quick):
                 fill = ('z', 0) if (off + fs) % 2 else ('z', 0x2E)
                 cases.append({'kind': 'small:single', 'recipe': layout([(off, m)], fs, fill)})
     # pairs / triples at random offsets, nested and overlapping constructs, random junk
-    for n in range(300 if quick else 3000):
+    for n in range(150 if quick else 3000):
         fs = rng.randrange(1, 6 * R)
         items = [(rng.randrange(0, fs), sized_msg(rng.choice(msizes + [30, 47, 49, 60]), seq=j)) for j in range(rng.randrange(1, 6))]
         items += [(rng.randrange(0, fs), ['h', F.SYNC.hex()]) for _ in range(rng.randrange(0, 4))]
         cases.append({'kind': 'small:multi', 'recipe': layout(items, fs, ('z', 0) if n % 2 else ('r', 9000 + n))})
-    cases += [dict(c, kind='small:' + c['kind']) for c in gen_overlap(rng, cat, R, M, 150 if quick else 1500)]
+    cases += [dict(c, kind='small:' + c['kind']) for c in gen_overlap(rng, cat, R, M, 60 if quick else 1500)]
     cases += [dict(c, kind='small:' + c['kind']) for c in gen_nested(rng, cat, R, M, 60 if quick else 600)]
     cases += [dict(c, kind='small:' + c['kind']) for c in gen_edge_types(rng, cat, R, M)]
     cases += [dict(c, kind='small:' + c['kind']) for c in gen_undecodable(rng, cat, R, M, 60)]
     cases += [dict(c, kind='small:' + c['kind']) for c in gen_periodic(rng, cat, R, M, quick)]
     cases += [dict(c, kind='small:' + c['kind']) for c in gen_tails(rng, cat, R, M)]
+    cases += [dict(c, kind='small:' + c['kind']) for c in gen_last_bytes(rng, cat, R, M)]
     cases += [dict(c, kind='small:' + c['kind']) for c in gen_boundary_max(rng, cat, R, M)]
     cases += [dict(c, kind='small:' + c['kind']) for c in gen_trunc(rng, cat, R, M)]
-    cases += [dict(c, kind='small:' + c['kind']) for c in gen_boundary(rng, cat, R, M, range(-25, 26), [2, 3, 4, 5, 6], quick)]
+    cases += [dict(c, kind='small:' + c['kind']) for c in gen_boundary(rng, cat, R, M, range(-25, 26) if not quick else list(range(-25, 26, 2)) + [-24, 0, 24], [2, 3, 4, 5, 6], quick)]
     for c in cases:
         c['consts'] = list(SMALL)
     return cases
@@ -622,7 +643,10 @@ def path_name(w):
     if w.startswith('save:'):
         return 'fast_generate_index(save_index=True, num_threads=%s)' % w[5:]
     return {'load': 'second fast_generate_index() call loading the saved .p1i', 'reader': 'MixedLogReader(path).get_index()',
-            'reader-again': 'second MixedLogReader(path).get_index() (index file on disk)'}.get(w, 'fast_generate_index(save_index=False, num_threads=%s)' % w)
+            'reader-again': 'second MixedLogReader(path).get_index() (index file on disk)',
+            'trace:2': 'fast_generate_index(num_threads=2) with trace logging enabled',
+            'env': 'fast_generate_index(relative path, other file name/extension/cwd, stale .p1i present, force_reindex=True, save_index=True, np.seterr(all=raise), num_threads=2)',
+            'env-load': 'second call loading the index saved under the other file name'}.get(w, 'fast_generate_index(save_index=False, num_threads=%s)' % w)
 
 
 def same_run(a, b):
@@ -654,6 +678,10 @@ def evaluate(ctx, case, res, mdl, report=True):
             mk = last_save[-1][5:] if last_save else None
         elif w.startswith('reader'):
             mk = str(res.get('cpu_count'))
+        elif w.startswith('trace:'):
+            mk = w[6:]
+        elif w.startswith('env'):
+            mk = '2'
         if mk != w and mk not in mdl['runs']:
             m = mdl['runs'].get('1') if small else None     # under the precondition the model is the same for every W
             if m is None:
@@ -782,15 +810,16 @@ def run(ctx):
     ncorpus = len(cases)
     deltas = list(range(-25, 26))
     real = []
-    real += gen_tiny(rng)
+    real += gen_tiny(rng) if not quick else gen_tiny(rng)[::2] + gen_tiny(rng)[1:8:2]
+    real += gen_last_bytes(rng, cat, R, M)
     real += gen_stamps(rng, cat)
     real += gen_short_payload(rng, cat)
     real += gen_edge_types(rng, cat, R, M)
     real += gen_undecodable(rng, cat, R, M, 120)
-    real += gen_periodic(rng, cat, R, M, quick)
+    real += gen_periodic(rng, cat, R, M, quick) if not quick else gen_periodic(rng, cat, R, M, quick)[::2]
     real += gen_trunc(rng, cat, R, M)
     real += gen_tails(rng, cat, R, M) if not quick else gen_tails(rng, cat, R, M)[::2]
-    real += gen_boundary(rng, cat, R, M, deltas if not quick else deltas[::2] + [-24, -23, -1, 1, 23, 25], [2, 3, 4, 5, 6, 2, 3], quick)
+    real += gen_boundary(rng, cat, R, M, deltas if not quick else [-25, -24, -23, -3, -2, -1, 0, 1, 2, 3, 23, 24, 25], [2, 3, 4, 5, 6, 2, 3], quick)
     real += gen_boundary_max(rng, cat, R, M) if not quick else gen_boundary_max(rng, cat, R, M)[::3]
     real += gen_overlap(rng, cat, R, M, 12 if quick else 60)
     real += gen_nested(rng, cat, R, M, 10 if quick else 60)
@@ -803,24 +832,37 @@ def run(ctx):
     for i, c in enumerate(cases):
         c['id'] = i
         # small-constant files have at most a handful of blocks: 16 workers (mostly idle ones) on every fourth case
-        c['threads'] = THREADS if (not c.get('consts') or i % 4 == 0) else THREADS[:-1]
+        c['threads'] = THREADS if ((not c.get('consts') and (not quick or i % 2 == 0)) or (c.get('consts') and i % 4 == 0)) else THREADS[:-1]
         c['legacy_view'] = legacy_view
         # every public way to obtain the index (saved, loaded, through MixedLogReader): all edge-type / corpus / tiny /
         # stamp / tail / truncation / undecodable-payload files, every third other real-constant and every eighth small-constant file
         k0 = c['kind'].split(':')[0]
-        if 'edge-type' in c['kind'] or k0 in ('corpus', 'tiny', 'stamp', 'short-payload', 'tail', 'trunc-eof', 'undecodable') \
-                or (not c.get('consts') and i % 3 == 0) or (c.get('consts') and i % 8 == 0):
+        if 'edge-type' in c['kind'] or k0 in ('corpus', 'stamp', 'short-payload', 'trunc-eof', 'undecodable') or c['kind'] == 'tail:last-bytes' or (k0 in ('tiny', 'tail') and i % 2 == 0) \
+                or (not c.get('consts') and i % (4 if quick else 2) == 0) or (c.get('consts') and i % (12 if quick else 4) == 0):
             c['paths'] = [1, 3]
-            c['threads'] = THREADS
         c['real_consts'] = [R, M]
         c.setdefault('consts', None)
     ctx.log('%d cases (%d corpus, %d real constants, %d small constants)' % (len(cases), ncorpus, nreal - ncorpus, len(cases) - nreal))
 
+    del HISTORY[:]
     res = run_impl(ctx, cases)
     ctx.log('IMPL done')
     mdl = run_model(exe, [model_line(c, r) for c, r in zip(cases, res)])
     ctx.log('MODEL/SPEC done')
 
+    # in-process histories (harness/py/c08_impl.py history()): earlier results unchanged, same file indexed again later in
+    # the same interpreter, returned arrays mutated, log file untouched
+    byid = {c['id']: c for c in cases}
+    nkept = 0
+    for h in HISTORY:
+        nkept += len(h.get('kept', []))
+        for pr in h['history']:
+            c = byid.get(pr.get('id'), {})
+            ctx.violation({'class': 'history', 'what': pr['problem'][:60]}, '%s: %s on %s' % (pr['problem'], {k: v for k, v in pr.items() if k not in ('problem', 'id')},
+                          F.describe(c.get('recipe', []))), {'recipe': c.get('recipe'), 'consts': c.get('consts'), 'threads': THREADS, 'paths': [1, 3], 'history': pr})
+    ctx.count('history:files-kept-and-rechecked', nkept)
+    if nkept == 0:
+        raise RuntimeError('c08: no in-process history was checked')
     seen_sig = set()
     first_corr = None
     for c, r, m in zip(cases, res, mdl):
@@ -853,7 +895,7 @@ def run(ctx):
         ctx.broken_correspondence(first_corr[0], first_corr[1])
 
     ctx.coverage['rule'] = (
-        'Every case is a whole log file indexed with num_threads in {1,2,3,5,16} (save_index=False); all edge-type, corpus, tiny, stamp, tail, truncated and undecodable-payload files, every third other real-constant file and every eighth small-constant file are also indexed through the other public paths: fast_generate_index(save_index=True) with 1 and 3 workers, a second call that loads the saved .p1i, MixedLogReader(path).get_index() with default arguments without and then with an index file on disk; every returned index (time, type, offset, message_index) must be the same. The full index arrays '
+        'Every case is a whole log file indexed with num_threads in {1,2,3,5,16} (save_index=False); all edge-type, corpus, tiny, stamp, tail, truncated and undecodable-payload files, every 2nd (quick: 4th) other real-constant file and every 4th (quick: 12th) small-constant file are also indexed through the other public paths: fast_generate_index(save_index=True) with 1 and 3 workers, a second call that loads the saved .p1i, MixedLogReader(path).get_index() with default arguments without and then with an index file on disk; every returned index (time, type, offset, message_index) must be the same; the same files are also indexed with trace logging enabled and under another file name / extension / directory through a relative path with a different current directory, a stale .p1i on disk and the numpy error state set to raise. Each harness process (one interpreter, ~200 different files in a row) keeps the FileIndex objects of its first files alive and at the end checks that they are unchanged, that indexing those files again gives the same index, that mutating the arrays of a returned index affects neither the saved .p1i nor later calls, and that the log file is never modified. The full index arrays '
         'are compared with the extracted MODEL run with the same constants and, when every CRC-valid candidate of the file is <= MAX (the '
         'property\'s precondition), with the extracted SPEC; independently of the precondition every entry must be a complete CRC-valid message '
         'and no call may raise. MAIN run, real constants READ=%d MAX=%d: files of 1-6 blocks with messages / sync words whose start or end is at '
@@ -864,7 +906,7 @@ def run(ctx):
         'in the harness process; workers are forked so they inherit them — checked): one message of size 24/25/40/48 at every offset of files around '
         'every block and overlap boundary (%s), random multi-message files, the same overlap/nested/tail/truncation/boundary families. '
         'A case is distinct by (file, worker count); empty files are counted trivial.'
-        % (R, M, 'every other d in the quick tier' if quick else 'every d', len(cat), 'a third of the offsets in the quick tier' if quick else 'every offset'))
+        % (R, M, 'd in {0, +-1, +-2, +-3, +-23, +-24, +-25} in the quick tier' if quick else 'every d', len(cat), 'a fifth of the offsets in the quick tier' if quick else 'every offset'))
     ctx.coverage['exhaustive'] = False
     ctx.coverage['supporting_runs'] = 'cases whose kind starts with "small:" use monkey-patched constants (READ=64, MAX=48) and are supporting evidence only'
     ctx.trusted_base += [
